@@ -319,12 +319,13 @@ Proof.
 Qed.
 
 Theorem m_data_resolves_all : forall es k dn dd i, nth_error es k = Some (EData dn dd) ->
-  In i (expressed (map sev_of (firstn k es))) -> ~ In (s_pid i) (hist_cbs (hist init (firstn k es))) ->
+  In i (expressed (map sev_of (firstn k es))) -> s_opt i = false -> ~ In (s_pid i) (hist_cbs (hist init (firstn k es))) ->
   satisfies i dn dd = true -> In (OCb (s_pid i) (RData dn dd)) (obs_at es k).
 Proof.
-  intros es k dn dd i Hk Hi Hn Hs. destruct (model_accepted_rel es) as (sp & Hrun & _).
+  intros es k dn dd i Hk Hi Ho Hn Hs. destruct (model_accepted_rel es) as (sp & Hrun & _).
   apply (acc_data_resolves_all _ _ k dn dd _ i Hrun (obs_at_nth es k _ Hk)).
   - rewrite prefix_events. exact Hi.
+  - exact Ho.
   - rewrite firstn_hist. exact Hn.
   - exact Hs.
 Qed.
@@ -405,5 +406,5 @@ Proof.
       unfold i. rewrite (r_now _ _ R0). reflexivity. }
     apply (b_pend _ _ _ B) in Hp. destruct Hp as (HiX & Hns).
     change (npid s) with (s_pid i).
-    apply (m_data_resolves_all es' (S (length es)) dn dd i Hk1); rewrite ?Hf1; assumption.
+    apply (m_data_resolves_all es' (S (length es)) dn dd i Hk1); rewrite ?Hf1; try assumption. reflexivity.
 Qed.
